@@ -10,8 +10,14 @@ import fractions
 import inspect
 import json
 
-# quantizer classes that are NOT in the custom-object table but that a layer config can name
-EXTRA_QUANTIZERS = ["quantized_linear", "quantized_hswish"]
+# quantizer classes that a layer config can name and that used to be missing from the custom-object
+# table (fix round: both are keys of the table now; should one disappear again it is still tabulated,
+# after the table's own classes, so that the static tie reports the table difference and nothing else)
+FORMERLY_MISSING_QUANTIZERS = ["quantized_linear", "quantized_hswish"]
+
+
+def extra_quantizers(co):
+  return [n for n in FORMERLY_MISSING_QUANTIZERS if n not in co]
 
 # literal constructor arguments that the inference computation of a layer reads (model side)
 READ_LITS = {
@@ -99,7 +105,7 @@ def is_quantizer_class(c):
 def quantizer_table():
   from qkeras import quantizers as Q
   co = custom_objects()
-  names = [n for n, c in co.items() if is_quantizer_class(c)] + EXTRA_QUANTIZERS
+  names = [n for n, c in co.items() if is_quantizer_class(c)] + extra_quantizers(co)
   out = []
   for n in names:
     c = getattr(Q, n)
@@ -178,7 +184,7 @@ def default_arg(kind, d, qnames):
 def layer_table():
   import tensorflow as tf
   co = custom_objects()
-  qnames = [n for n, c in co.items() if is_quantizer_class(c)] + EXTRA_QUANTIZERS
+  qnames = [n for n, c in co.items() if is_quantizer_class(c)] + extra_quantizers(co)
   out = []
   for n, c in co.items():
     if is_quantizer_class(c) or n in NOT_LAYER_SPECS:
